@@ -4,6 +4,9 @@ package client
 
 import (
 	"context"
+	"io"
+	"os"
+	"time"
 
 	"github.com/openconfig/gribigo/constants"
 
@@ -12,6 +15,7 @@ import (
 )
 
 func init() {
+	vfRegister("VfC13_recvViolation", VfC13_recvViolation)
 	vfRegister("VfC13_accounting_q", VfC13_accounting_q)
 	vfRegister("VfC13_accounting_t", VfC13_accounting_t)
 }
@@ -270,3 +274,65 @@ func vfC13(nPre, nSteps int, kinds []int, maxType int) {
 
 func VfC13_accounting_q() { vfC13(2, 1, []int{0, 1, 3}, 2) }
 func VfC13_accounting_t() { vfC13(2, 2, []int{0, 1, 2, 3, 4}, 3) }
+
+// VfC13_recvViolation: through the REAL receive loop (Connect's goroutines), a response that completes the last
+// pending operation AND carries a result for an id that was never sent.  Whatever the interleaving of the
+// receiver with the convergence check (every schedule with up to 2 pre-emptions at synchronisation points), the
+// check never reports success: it returns the recorded error.
+func VfC13_recvViolation() {
+	st := vfNewCStream()
+	st.violate = true
+	stub := &vfCStub{streams: []*vfCStream{st}}
+	c, err := New(ElectedPrimaryClient(&spb.Uint128{Low: 1}), PersistEntries())
+	if err != nil {
+		panic(err)
+	}
+	c.UseStub(stub)
+	ctx := context.Background()
+	if err := c.Connect(ctx); err != nil {
+		panic(err)
+	}
+	c.StartSending()
+	n := vfInt("ops", 1, 2)
+	var aerr error
+	if vfEngine() {
+		vfSched(2)
+		for i := 0; i < n; i++ {
+			c.Q(vfCOpN(uint64(i + 1)))
+		}
+		aerr = c.AwaitConverged(ctx)
+		vfSched(0)
+	} else {
+		// Native replay: the window the engine's scheduler found lies between the receiver's handling of the
+		// response and its recording of the error, where the receiver logs.  It is widened deterministically by
+		// making that log write block: stderr becomes a full pipe until the convergence check had its chance.
+		rd, wr, perr := os.Pipe()
+		if perr != nil {
+			panic(perr)
+		}
+		saved := os.Stderr
+		fill := make([]byte, 1<<16)
+		wr.Write(fill) // a Linux pipe holds 64 KiB: the next write blocks
+		os.Stderr = wr
+		done := make(chan error, 1)
+		for i := 0; i < n; i++ {
+			c.Q(vfCOpN(uint64(i + 1)))
+		}
+		go func() { done <- c.AwaitConverged(ctx) }()
+		select {
+		case aerr = <-done:
+		case <-time.After(700 * time.Millisecond):
+			// the check is (rightly) waiting for the receiver: let the log write through
+			os.Stderr = saved
+			go io.Copy(io.Discard, rd)
+			aerr = <-done
+		}
+		os.Stderr = saved
+		go io.Copy(io.Discard, rd)
+	}
+	vfAssert(aerr != nil, "C13:convergence-never-reported-after-a-violating-response")
+	vfSettleC()
+	_, re := c.hasErrors()
+	vfAssert(len(re) >= 1, "C13:violating-response-recorded-as-receive-error")
+	vfReach("end")
+}
